@@ -465,7 +465,7 @@ def walk_named(named):
                 node_names[nd["name"]] = node_names.get(nd["name"], 0) + 1
             for i in nd["ins"]:
                 if i and i not in vis:
-                    problems.append(f"use-before-def:{i}@{nd['name'] or nd['op']}")
+                    problems.append(f"use-before-def:{i}@{nd['name'] or nd.get('op', '?')}")
             for sg in nd["subs"]:
                 walk(sg, vis)
             for o in nd["outs"]:
